@@ -44,7 +44,7 @@ ASSUMPTIONS = [
 def node(i: int) -> Any:
     return st.fixed_dictionaries(dict(
         style=st.sampled_from(["sync", "async", "gen", "agen", "cm", "acm", "gen", "agen"]),
-        ctx=st.just(False), sleep=st.sampled_from([0, 0, 0.05]), tsleep=st.sampled_from([0, 0, 0, 0.8]),
+        ctx=st.just(False), sleep=st.sampled_from([0, 0, 0.05]), tsleep=st.sampled_from([0, 0, 0, 0.8, 8.0]),
         fail=st.sampled_from([None, None, None, None, None, "before"]), swallow=st.booleans(), affine=st.sampled_from([False, False, True]),
         fail_exc=st.sampled_from(["RuntimeError", "RuntimeError", "TimeoutError", "KeyError", "asyncio.CancelledError", "ConnectionError"]),
         deps=st.lists(st.tuples(st.integers(0, max(i - 1, 0)), st.sampled_from([True, True, False])).map(list), max_size=2 if i > 0 else 0, unique_by=lambda x: x[0]),
@@ -71,6 +71,7 @@ def cases() -> Any:
         "on_error_fails": st.sampled_from([False, False, False, True]),
         # all (overlapping) executions carry the SAME task id: a redelivery, a message kicked twice
         "same_id": st.sampled_from([False, False, False, True]),
+        "shutdown_early": st.sampled_from([False, False, True]),
     }))
 
 
@@ -139,6 +140,10 @@ def run_case(c: Dict[str, Any]) -> Outcome:
             if via != "receiver":
                 await AsyncKicker("t", b, labels).with_task_id("id0" if c.get("same_id") else f"id{k}").kiq(k, slp)
                 if via == "inmemory":
+                    if c.get("shutdown_early") and k == 0:
+                        # the application shuts the broker down while executions are still in flight (its shutdown hooks run, nothing more);
+                        # they finish - teardown included - undisturbed
+                        await b.shutdown()
                     await b.wait_all()
                 return
             m = b.formatter.dumps(AsyncKicker("t", b, labels).with_task_id("id0" if c.get("same_id") else f"id{k}")._prepare_message(k, slp)).message
